@@ -599,8 +599,8 @@ fn chain_part(run: &Run, shard: usize, n: usize, n_hist: u64, deadline: f64) {
 fn main() {
 	let run = Run::from_env("C01", "exploration");
 	init_globals(true);
-	let n_shapes: u64 = run.tier.pick(110, 1100);
-	let n_hist: u64 = run.tier.pick(16, 160);
+	let n_shapes: u64 = run.tier.pick(170, 1600);
+	let n_hist: u64 = run.tier.pick(24, 200);
 	if let Some((shard, n)) = run.worker_shard() {
 		init_thread(true);
 		let deadline = run.tier.pick(240.0, 900.0);
